@@ -189,7 +189,9 @@ def _subexprs_by_nest(parents: list, node) -> dict[str, list]:
         return {getattr(node, "upper_name", ""): parents}
     if not isinstance(node, ops.Op):
         return {}
-    sources = [getattr(node, "lhs", None), getattr(node, "rhs", None)]
+    # every kind of operator node keeps its children in `operands`: the two sides of a binary
+    # operator, the single operand of a unary one (~, -), the arguments of a math function call
+    sources = list(node.operands)
     result: dict[str, list] = {}
     for source in sources:
         child = _subexprs_by_nest(parents, source)
